@@ -100,6 +100,8 @@ func (cj *CookieJar) getCookiesByHost(host string) []*fasthttp.Cookie {
 			cookies = append(cookies[:i], cookies[i+1:]...)
 			fasthttp.ReleaseCookie(c)
 			i--
+			// keep the jar in step with the purge: a released cookie must not stay referenced
+			cj.hostCookies[host] = cookies
 		}
 	}
 
